@@ -24,6 +24,11 @@ def check_C02(rep, known):
 
 def check_C04(rep, known):
     scen_job(rep, 'ScenShoot', 'C04', [r'C04\.', r'build', r'varmap'], known)
+    # constraints declared on a sub-stage after a first transcription (multi-stage histories of the C12 family)
+    recs, st = tlc.generate('ScenStages', 'ScenStages.cfg', 'C12', rep.tier, rep.seed, parts=16)
+    recs = [r for r in recs if r['sc']['reset']]
+    outs = engine.pool_map('stages', 'replay', recs)
+    engine.process_results(rep, recs, outs, [r'C12\.a:(rows|extra)'], known)
 
 
 def mc_job(rep, module, cfg, expect_violation=None, workers=16, env=None):
